@@ -6,6 +6,32 @@ import subprocess
 ROOT = os.path.dirname(os.path.dirname(os.path.abspath(__file__)))
 
 CHECKS = {
+    "C03": dict(
+        technique="TLC-executed abstract interpreter (ExprAbs.tla: affine forms + sign/finiteness domain, partition of the "
+                  "voltage axis derived from the traced programs) over the jaxprs of every rate function; per-cell concrete "
+                  "obligations on the real update functions with a 40-digit closed-form oracle",
+        category="exploration", design="4/C03",
+        text="The cell structure of every gate's rate program (removable singularities, clip thresholds) is decided by TLC over the "
+             "reals; each cell yields the point itself, +-1..4 ulp, +-1e-9, interval ends and seeded interior doubles, crossed with "
+             "5 dt regimes and 4 states: finite, in [0,1], equal to the closed-form exponential update, never past the steady state.",
+        note="Exhaustive over derived cells for the real-number semantics, sampled for the float remainder; not a proof over doubles."),
+    "C04": dict(
+        technique="published equations as expression trees in Kinetics.tla (TLA+), exported by TLC and evaluated in 50 digits; "
+                  "cells derived by TLC (ExprAbs.tla) from BOTH the code's traced programs and the published trees",
+        category="exploration", design="4/C04",
+        text="Kinetics.tla states what HH, Leak, Na, K, Km, CaL, CaT and IonotropicSynapse are (rates, steady states, time constants, "
+             "currents, defaults, rename rule). The code's functions are compared with the trees on every derived cell (points, ulps, "
+             "interior samples), currents at random states/parameters, defaults exactly, change_name on 6 prefixes per mechanism.",
+        note="Trusted base: the transcription into Kinetics.tla (HH checked against NEURON's hh.mod offline; the others from memory: a "
+             "disagreement with them is UNDECIDED, never a violation; CaT tau_u is contested)."),
+    "C14": dict(
+        technique="fixed-point obligations at every voltage cell derived by TLC (ExprAbs.tla) from the traced rate programs, run "
+                  "through Module.init_states() and the mechanisms' own update_states; write-set compare of the tables",
+        category="exploration", design="4/C14",
+        text="For 4 setups (HH; all Pospischil channels; shifted vt/taumax/vx; renamed channels), channels inserted in 2/3 of the "
+             "compartments, one compartment per derived voltage: after init_states() one update at dt in {1e-3, 0.025, 1, 1e3} leaves "
+             "every gate unchanged to 1e-12, and only gate columns of rows containing the channel are written.",
+        note="Voltages are the TLC-derived point cells (singular voltages included) plus seeded interior doubles."),
     "C19": dict(
         technique="TLA+ state machine of the module tables (JaxleyModule.tla) + integer simulation oracle (ProbeSim.tla), "
                   "model-checked by TLC; dumped state graph replayed call by call on the real module with projection "
